@@ -145,12 +145,13 @@ def outcome_event(case, run, pristine_flat, fm, world_keys):
         g = fg.get(k, "<absent>")
         if g == a:
             ev["nSame"] += 1
-        elif g in ("<absent>", "ERR") or (k.endswith("/res") and g in ("err", "panic", "none")) or (k.endswith("/res") and g == "missing"):
+        elif g in ("<absent>", "ERR") or (k.endswith("/res") and g in ("err", "panic")) or (k.endswith("/res") and g == "missing"):
             ev["nErr"] += 1
         elif k.endswith("/bytes"):
             ev["nDiffContent"] += 1
             diffs.append((k, a, g))
         else:
+            # (an index or a content answered 'none' although it was written is a different answer, not an error)
             ev["nDiffStruct"] += 1
             diffs.append((k, a, g))
     for k in fg:
